@@ -300,6 +300,11 @@ class Ctx:
             args.append("-race")
         if extra:
             args += extra
+        if os.environ.get("VERIF_COVERDIR"):
+            # development aid (bin/covreport): statement coverage of dskit under the conformance drivers
+            self._ncov = getattr(self, "_ncov", 0) + 1
+            args += ["-coverpkg=github.com/grafana/dskit/...", "-coverprofile=%s/%s_%s_%03d.out" % (
+                os.environ["VERIF_COVERDIR"], self.pid, self.tier, self._ncov)]
         args.append("./" + pkg)
         t0 = time.time()
         try:
